@@ -1,6 +1,6 @@
 // C20 C++ plug-in: failure variants that need C++.
 //   c20_throws          the registration function catches its own exception and returns it in
-//                       `exception` (the documented way for a plug-in to report a failure)
+//   c20_ocp_throws      `exception` (the documented way for a plug-in to report a failure); NLP / OCP
 //   c20_defaultinit     a table obtained by *default-initialisation* of a C++ object (no `{}`), the
 //                       four required functions filled in: every optional member is left to its
 //                       default member initialiser from dl-problem.h
@@ -29,6 +29,8 @@ void eggp(void *i, const alpaqa_real_t *x, const alpaqa_real_t *y, alpaqa_real_t
 } // namespace
 
 extern "C" {
+/* number of times a registration function of this library has been run (read by the harness via dlsym) */
+EXPORT int c20_reg_calls = 0;
 EXPORT int c20_log_take(int *buf, int cap) {
     int k = g_nlog < cap ? g_nlog : cap;
     std::memcpy(buf, g_log, sizeof(int) * (size_t)k);
@@ -39,6 +41,7 @@ EXPORT void *c20_table_of(void *instance) { return &static_cast<Prob *>(instance
 
 EXPORT alpaqa_problem_register_t c20_throws(alpaqa_register_arg_t) {
     alpaqa_problem_register_t r;
+    ++c20_reg_calls;
     try {
         throw std::runtime_error("c20 plug-in exception");
     } catch (...) {
@@ -48,8 +51,22 @@ EXPORT alpaqa_problem_register_t c20_throws(alpaqa_register_arg_t) {
 }
 EXPORT alpaqa_dl_abi_version_t c20_throws_version(void) { return ALPAQA_DL_ABI_VERSION; }
 
+// the same exception transport for an optimal-control plug-in
+EXPORT alpaqa_control_problem_register_t c20_ocp_throws(alpaqa_register_arg_t) {
+    alpaqa_control_problem_register_t r;
+    ++c20_reg_calls;
+    try {
+        throw std::runtime_error("c20 plug-in exception");
+    } catch (...) {
+        r.exception = new alpaqa_exception_ptr_t{std::current_exception()};
+    }
+    return r;
+}
+EXPORT alpaqa_dl_abi_version_t c20_ocp_throws_version(void) { return ALPAQA_DL_ABI_VERSION; }
+
 EXPORT alpaqa_problem_register_t c20_defaultinit(alpaqa_register_arg_t arg) {
     alpaqa_problem_register_t r;
+    ++c20_reg_calls;
     // storage with a recognisable bit pattern (what a recycled heap block may contain)
     void *buf = std::malloc(sizeof(Prob));
     std::memset(buf, 0x5A, sizeof(Prob));
